@@ -84,7 +84,7 @@ func c14Build(kind, content, file string) (*c14Engine, error) {
 	switch kind {
 	case "dns":
 		e.dns = urlfilter.NewDNSEngine(s)
-	case "engine", "cosmetic":
+	case "engine", "cosmetic", "mixed":
 		e.eng = urlfilter.NewEngine(s)
 	default:
 		e.net = urlfilter.NewNetworkEngine(s)
@@ -95,7 +95,15 @@ func c14Build(kind, content, file string) (*c14Engine, error) {
 
 // answer returns the canonical answer of one query.
 func (e *c14Engine) answer(q *gen.Req) string {
-	switch e.kind {
+	kind := e.kind
+	if kind == "mixed" {
+		// Web and cosmetic queries on ONE engine at the same time.
+		kind = "engine"
+		if q.HostnameReq {
+			kind = "cosmetic"
+		}
+	}
+	switch kind {
 	case "dns":
 		res, m := e.dns.MatchRequest(&urlfilter.DNSRequest{Hostname: q.Host, DNSType: q.DNSType, ClientName: q.ClientName, ClientIP: q.ClientIP, SortedClientTags: q.Tags})
 
@@ -133,7 +141,7 @@ var c14ModeNames = []string{"none", "gosched", "sleep", "rendezvous"}
 func c14Run(c *core.Ctx, idx int) {
 	lines := c14List(c)
 	content := util.Lines(lines)
-	kind := []string{"dns", "engine", "network", "network", "cosmetic"}[c.Rng.Intn(5)]
+	kind := []string{"dns", "engine", "network", "network", "cosmetic", "mixed"}[c.Rng.Intn(6)]
 	file := ""
 	if c.Rng.Intn(2) == 0 {
 		dir, err := os.MkdirTemp(filepath.Join(c.Env.VerifDir, ".work"), "c14f.")
@@ -159,7 +167,11 @@ func c14Run(c *core.Ctx, idx int) {
 	nd := 5 + c.Rng.Intn(25)
 	for len(distinct) < nd {
 		var q *gen.Req
-		switch kind {
+		gk := kind
+		if kind == "mixed" && c.Rng.Intn(2) == 0 {
+			gk = "cosmetic"
+		}
+		switch gk {
 		case "dns":
 			q = gen.RandomReq(c.Rng, 1)
 		case "cosmetic":
@@ -315,12 +327,12 @@ func c14Run(c *core.Ctx, idx int) {
 }
 
 func init() {
-	sizes := map[core.Tier]int{core.Quick: 96, core.Thorough: 1600}
+	sizes := map[core.Tier]int{core.Quick: 256, core.Thorough: 2400}
 	core.Register(&core.Prop{
 		ID:      "C14",
 		Level:   "exploration",
 		Workers: 8,
-		Rule: "harness built with -race; per round a fresh cold storage (String- or File-backed) and engine (DNS, full Engine, NetworkEngine.MatchAll, cosmetic) over a generated list of 100..400 (thorough 2000) lines or an easylist slice, a request multiset of 50..250 (thorough 500) drawn from 5..30 distinct requests (few keys, many threads; URLs repeating indexed windows) partitioned over 2/4/8/16/32 goroutines released by a barrier; " +
+		Rule: "harness built with -race; per round a fresh cold storage (String- or File-backed) and engine (DNS, full Engine, NetworkEngine.MatchAll, cosmetic, or web+cosmetic queries mixed on one Engine) over a generated list of 100..400 (thorough 2000) lines or an easylist slice, a request multiset of 50..250 (thorough 500) drawn from 5..30 distinct requests (few keys, many threads; URLs repeating indexed windows) partitioned over 2/4/8/16/32 goroutines released by a barrier; " +
 			"schedule perturbation at the hook points (cache miss/insert, between Seek and read, before regexp.Compile, pool get/put) in one of four modes: none, Gosched with probability p, 1..50 us sleep, rendezvous (the first goroutine at a miss/seek/compile point of key K is held until a second one reaches the same point and key); " +
 			"monitors: race detector reports (log parsed after every round), every concurrent answer == the sequential answer of a separate engine over the same bytes (sorted text multisets), no panic; non-trivial = round with cache misses; distinct by the observed global order of miss/insert events (the interleaving signature)",
 		Assumptions: []string{
